@@ -9,9 +9,11 @@ func (c *Conversation) processDisconnectedTLV(t tlv, x dataMessageExtra) (toSend
 	c.lastMessageStateChange = time.Time{}
 	c.msgState = finished
 	c.smp.wipe()
+	c.ake.wipe(true)
 	c.ake = nil
 	c.resend.clear()
 
+	c.keys.wipe()
 	c.keys = keyManagementContext{}
 
 	return nil, nil
